@@ -121,6 +121,8 @@ pub struct Shared {
     /// the broker model stays silent; the scenario pushes inbound bytes itself
     pub manual: bool,
     pub keep_tx: bool,
+    /// the most recent cancellation was forced (nothing else could happen), not a chosen deviation
+    pub last_cancel_forced: bool,
 }
 
 pub struct Watchdog(pub &'static str);
@@ -541,6 +543,7 @@ impl Shared {
                 self.just_resumed = true;
                 if i == 1 {
                     self.log(|| "  env: application drops the future".to_string());
+                    self.last_cancel_forced = false;
                     false
                 } else {
                     true
@@ -566,7 +569,7 @@ impl Shared {
                 let enabled = if self.manual { Vec::new() } else { self.broker.enabled() };
                 let now = clock::now();
                 let wake = clock::wake();
-                if self.draining {
+                if self.draining || self.cfg.broker.fifo {
                     if let Some(e) = enabled.first() {
                         opts.push((E::Emit(e.clone()), false));
                     }
@@ -647,6 +650,7 @@ impl Shared {
                         true
                     }
                     E::Cancel => {
+                        self.last_cancel_forced = forced;
                         self.log(|| {
                             if forced {
                                 "  env: nothing can happen; application drops the future".to_string()
@@ -801,7 +805,24 @@ pub struct Handle {
 /// budget, in which case the execution stops here.
 pub type VisitFn<'a> = &'a dyn Fn(u128, u32) -> bool;
 
+/// One program-level decision of an execution (what the application did, independent of menus).
+#[derive(Clone, Debug, PartialEq, Eq)]
+pub enum PStep {
+    Connect,
+    EndSession,
+    EndConn,
+    Op { op: OpK, args: Vec<usize>, skip: bool },
+}
+
 pub struct World<'v> {
+    /// decisions taken, in order
+    pub program: Vec<PStep>,
+    /// when set, program-level decisions come from here instead of the chooser (twin runs)
+    pub script: Option<VecDeque<PStep>>,
+    pub cur_args: VecDeque<usize>,
+    /// operations dropped by a chosen cancellation: (index into `program`, kind, request number)
+    pub cancelled: Vec<(usize, OpK, Option<u8>)>,
+    pub results: Vec<(OpK, Res)>,
     pub sh: Rc<RefCell<Shared>>,
     pub cfg: Rc<Cfg>,
     pub handles: Vec<Handle>,
@@ -836,6 +857,13 @@ pub struct RunResult {
     pub outcome_sig: u64,
     pub spent: u32,
     pub io_calls: u32,
+    pub obs: crate::oracle::Obs,
+    pub results: Vec<(OpK, Res)>,
+    pub tx: Vec<Vec<u8>>,
+    pub program: Vec<PStep>,
+    pub cancelled: Vec<(usize, OpK, Option<u8>)>,
+    /// per cancelled operation: nothing of it was enqueued or offered
+    pub cancelled_without_trace: Vec<bool>,
 }
 
 struct ConnCtx {
@@ -856,7 +884,11 @@ impl<'v> World<'v> {
 
     /// Poll `fut` to completion, letting the environment act at every `Pending`.
     fn drive<F: Future>(&self, fut: F, conn: Option<usize>, cancel_ok: bool) -> Option<F::Output> {
-        drive_fut(&self.sh, fut, conn, cancel_ok)
+        let allowed = match (&self.cfg.cancel_only, self.sh.borrow().oracle.cur_op) {
+            (Some(list), Some((name, _))) => list.iter().any(|o| o.name() == name),
+            _ => true,
+        };
+        drive_fut(&self.sh, fut, conn, cancel_ok && allowed)
     }
 
     fn choose(&self, kind: u8, n: usize) -> usize {
@@ -864,6 +896,60 @@ impl<'v> World<'v> {
             return 0;
         }
         self.sh.borrow_mut().ch.choose(kind, n, 0)
+    }
+
+    fn decide_prog(&mut self, can_connect: bool) -> bool {
+        let go = if let Some(sc) = &mut self.script {
+            match sc.pop_front() {
+                Some(PStep::Connect) => true,
+                Some(PStep::EndSession) | None => false,
+                other => panic!("machinery: twin script out of step at session level: {:?}", other),
+            }
+        } else if can_connect {
+            self.choose(K_PROG, 2) == 1
+        } else {
+            false
+        };
+        self.program.push(if go { PStep::Connect } else { PStep::EndSession });
+        go
+    }
+
+    /// `None` = end of this connection's part of the program.
+    fn decide_op(&mut self, menu: &[OpK]) -> Option<(OpK, bool)> {
+        let r = if let Some(sc) = &mut self.script {
+            match sc.pop_front() {
+                Some(PStep::Op { op, args, skip }) => {
+                    self.cur_args = args.into();
+                    Some((op, skip))
+                }
+                Some(PStep::EndConn) | None => None,
+                other => panic!("machinery: twin script out of step at connection level: {:?}", other),
+            }
+        } else {
+            let pick = self.choose(K_CONN, menu.len() + 1);
+            if pick == 0 { None } else { Some((menu[pick - 1], false)) }
+        };
+        self.program.push(match r {
+            Some((op, skip)) => PStep::Op { op, args: Vec::new(), skip },
+            None => PStep::EndConn,
+        });
+        r
+    }
+
+    fn decide_arg(&mut self, n: usize) -> usize {
+        let i = if self.script.is_some() {
+            let i = self.cur_args.pop_front().expect("machinery: twin script lacks an argument");
+            assert!(i < n.max(1), "machinery: twin script argument out of range");
+            i
+        } else if n > 1 {
+            self.choose(K_ARG, n)
+        } else {
+            0
+        };
+        if let Some(PStep::Op { args, .. }) = self.program.last_mut() {
+            args.push(i);
+        }
+        i
     }
 
     /// Packet identifiers of requests still waiting for their final acknowledgement.
@@ -892,8 +978,8 @@ impl<'v> World<'v> {
                 return;
             }
             let can_connect = self.ops_left() > 0 && self.conns_done < self.cfg.max_conns;
-            let pick = if can_connect { self.choose(K_PROG, 2) } else { 0 };
-            if pick == 0 {
+            let go = self.decide_prog(can_connect);
+            if !go {
                 self.log(|| "program: end".to_string());
                 break;
             }
@@ -930,7 +1016,8 @@ impl<'v> World<'v> {
         self.log(|| format!("api: connect (transport c{})", id));
         self.sh.borrow_mut().oracle.op_begin("connect", None);
         self.sh.borrow_mut().op_calls = 0;
-        let r = self.drive(session.connect(io), Some(id), true);
+        let cancel_connect = self.cfg.cancel_connect;
+        let r = self.drive(session.connect(io), Some(id), cancel_connect);
         match r {
             None => {
                 self.log(|| "api: connect cancelled".to_string());
@@ -1094,7 +1181,8 @@ impl<'v> World<'v> {
         }
         self.states += 1;
         if let Some(v) = self.visit {
-            if self.cfg.prune && v(key, budget) {
+            let seen = v(key, budget);
+            if self.cfg.prune && seen {
                 self.pruned = true;
                 self.log(|| "state already explored: execution merged".to_string());
             }
@@ -1205,8 +1293,8 @@ impl<'v> World<'v> {
                     menu.push(*op);
                 }
             }
-            let pick = self.choose(K_CONN, menu.len() + 1);
-            if pick == 0 {
+            let decided = self.decide_op(&menu);
+            let Some((op, skip)) = decided else {
                 self.log(|| "program: end".to_string());
                 if self.cfg.drain {
                     let done = conn.is_connected() && self.drain_connected(conn, id, false);
@@ -1218,9 +1306,12 @@ impl<'v> World<'v> {
                     }
                 }
                 return ConnEnd::Finished;
-            }
-            let op = menu[pick - 1];
+            };
             self.ops_done += 1;
+            if skip {
+                self.skip_op(id, op);
+                continue;
+            }
             if op.ends_connection() {
                 self.log(|| format!("api: {}", op.name()));
                 self.sh.borrow_mut().close_conn(id);
@@ -1233,6 +1324,25 @@ impl<'v> World<'v> {
             }
             self.do_op(conn, id, op);
         }
+    }
+
+    /// Twin runs: a request that the other run cancelled before anything of it existed. It keeps its
+    /// request number (payloads and filters are derived from it) but is not made.
+    fn skip_op(&mut self, id: usize, op: OpK) {
+        self.log(|| format!("api: ({} left out: cancelled without trace in the other run)", op.name()));
+        let kind = match op {
+            OpK::Pub1 => Some(ReqKind::Pub1),
+            OpK::Pub2 => Some(ReqKind::Pub2),
+            OpK::Sub => Some(ReqKind::Sub),
+            OpK::Unsub => Some(ReqKind::Unsub),
+            _ => None,
+        };
+        if let Some(kind) = kind {
+            self.reqs_done += 1;
+            let seq = self.sh.borrow_mut().oracle.new_request(kind, id);
+            self.sh.borrow_mut().oracle.reqs[seq as usize].outcome = Outcome::Refused;
+        }
+        self.cur_args.clear();
     }
 
     fn do_op(&mut self, conn: &mut Connection<'_, '_, VirtualIo>, id: usize, op: OpK) {
@@ -1248,7 +1358,10 @@ impl<'v> World<'v> {
                 };
                 let size = {
                     let n = self.cfg.payload_sizes.len();
-                    self.cfg.payload_sizes[if n > 1 { self.choose(K_ARG, n) } else { 0 }]
+                    {
+                        let i = self.decide_arg(n);
+                        self.cfg.payload_sizes[i]
+                    }
                 };
                 self.reqs_done += 1;
                 let (seq, payload) = if op == OpK::Pub0 {
@@ -1401,7 +1514,8 @@ impl<'v> World<'v> {
             }
             OpK::Sleep => {
                 let n = self.cfg.sleeps.len();
-                let ms = self.cfg.sleeps[if n > 1 { self.choose(K_ARG, n) } else { 0 }];
+                let i = self.decide_arg(n);
+                let ms = self.cfg.sleeps[i];
                 clock::advance_ms(ms);
                 self.log(|| format!("app: idle for {} ms (clock {} ms)", ms, clock::now_ms()));
                 self.sh.borrow_mut().oracle.op_begin("sleep", None);
@@ -1409,7 +1523,8 @@ impl<'v> World<'v> {
             }
             OpK::Age => {
                 let ids = self.live_ids();
-                let target = ids[if ids.len() > 1 { self.choose(K_ARG, ids.len()) } else { 0 }];
+                let i = self.decide_arg(ids.len());
+                let target = ids[i];
                 let from = conn.session().verif_runtime().next_packet_id;
                 let steps = (target as u32 + 65535 - from as u32) % 65535;
                 self.log(|| {
@@ -1425,6 +1540,11 @@ impl<'v> World<'v> {
             OpK::DropConn | OpK::Forget | OpK::IntoInner => unreachable!(),
         };
         self.log(|| format!("api: {} -> {:?}", op.name(), res));
+        self.results.push((op, res));
+        if res == Res::Cancelled && !self.sh.borrow().last_cancel_forced {
+            let seq = self.sh.borrow().oracle.cur_op.and_then(|c| c.1);
+            self.cancelled.push((self.program.len() - 1, op, seq));
+        }
         self.sh.borrow_mut().oracle.op_end(res.rejected(), res == Res::Cancelled);
         self.note_outcome((op, res));
         if op != OpK::Sleep && op != OpK::Age {
@@ -1462,7 +1582,8 @@ impl<'v> World<'v> {
         let budget = {
             let sh = self.sh.borrow();
             let live = sh.oracle.reqs.iter().filter(|r| r.live(sh.oracle.epoch)).count();
-            8 + 4 * (live + sh.oracle.owed_acks.len() + sh.broker.b2c.len() + sh.broker.owed.len())
+            let script_left = if self.cfg.drain_script { sh.cfg.broker.script.len().saturating_sub(sh.broker.script_next) } else { 0 };
+            8 + 4 * (live + sh.oracle.owed_acks.len() + sh.broker.b2c.len() + sh.broker.owed.len() + script_left)
         };
         let mut polls = 0;
         let mut last = Res::Ok;
@@ -1626,6 +1747,7 @@ impl<'v> World<'v> {
             && handles_ok
             && sh.oracle.owed_on(sh.conns.len() - 1).is_empty()
             && sh.broker.quiet()
+            && (!self.cfg.drain_script || sh.broker.script_next >= sh.cfg.broker.script.len())
             && conn.session().is_publish_quiescent()
             && conn.is_connected()
     }
@@ -1694,6 +1816,116 @@ pub fn run_once(
     visit: Option<VisitFn<'_>>,
     record: bool,
 ) -> RunResult {
+    let mut r = run_inner(cfg, prefix, expect, visit, record, None);
+    if cfg.twin.is_some() && !r.pruned && r.diverged.is_none() {
+        compare_with_twin(cfg, &mut r, record);
+    }
+    r
+}
+
+/// The benign twin of `r`: same program, default environment; requests that `r` cancelled before
+/// anything of them existed are left out.
+fn compare_with_twin(cfg: &Rc<Cfg>, r: &mut RunResult, record: bool) {
+    use crate::cfg::Twin;
+    let mode = cfg.twin.unwrap();
+    let dev_kinds: std::collections::BTreeSet<&'static str> = r
+        .points
+        .iter()
+        .filter(|p| (p.cost_mask >> p.chosen) & 1 == 1)
+        .map(|p| match p.kind {
+            K_WRITE => "write",
+            K_FLUSH => "flush",
+            K_READ => "read",
+            K_ENV => "env",
+            _ => "other",
+        })
+        .collect();
+    let relevant = match mode {
+        Twin::Cancel => !r.cancelled.is_empty(),
+        Twin::Fragment => r.spent > 0,
+    };
+    if !relevant {
+        return;
+    }
+    let mut script: Vec<PStep> = r.program.clone();
+    for ((idx, _, _), clean) in r.cancelled.iter().zip(r.cancelled_without_trace.iter()) {
+        if *clean {
+            if let PStep::Op { skip, .. } = &mut script[*idx] {
+                *skip = true;
+            }
+        }
+    }
+    let mut tcfg = (**cfg).clone();
+    tcfg.props = vec![];
+    tcfg.twin = None;
+    tcfg.prune = false;
+    let tcfg = Rc::new(tcfg);
+    let t = run_inner(&tcfg, &[], &[], None, record, Some(script));
+    if let (Some(trace), Some(tt)) = (&mut r.trace, &t.trace) {
+        trace.push("==== benign twin (same program, default environment) ====".to_string());
+        trace.extend(tt.iter().cloned());
+    }
+    if let Some(d) = &t.diverged {
+        r.diverged = Some(format!("twin run: {}", d));
+        return;
+    }
+    let mut flag = |prop: &'static str, rule: &str, ctx: &str, detail: String| {
+        let sig = format!("{}:{}:{}", prop, rule, ctx);
+        if !r.violations.iter().any(|v| v.sig == sig) {
+            r.violations.push(Violation { prop, sig, detail });
+        }
+    };
+    let hexes = |v: &Vec<Vec<u8>>| v.iter().map(|b| mr::hex(b)).collect::<Vec<_>>().join(" ");
+    match mode {
+        Twin::Cancel => {
+            let ops: Vec<String> = r
+                .cancelled
+                .iter()
+                .zip(r.cancelled_without_trace.iter())
+                .map(|((_, op, _), clean)| format!("{}{}", op.name(), if *clean { "(no-trace)" } else { "" }))
+                .collect();
+            let mut ops_sorted = ops.clone();
+            ops_sorted.sort();
+            ops_sorted.dedup();
+            let ctx = ops_sorted.join("+");
+            if r.obs.requests != t.obs.requests {
+                flag("C13", "requests-differ", &ctx, format!("after cancelling {:?}: client packets [{}], uncancelled run [{}]", ops, hexes(&r.obs.requests), hexes(&t.obs.requests)));
+            }
+            if r.obs.acks != t.obs.acks {
+                flag("C13", "acks-differ", &ctx, format!("after cancelling {:?}: acknowledgements [{}], uncancelled run [{}]", ops, hexes(&r.obs.acks), hexes(&t.obs.acks)));
+            }
+            if r.obs.pubrels != t.obs.pubrels {
+                flag("C13", "pubrels-differ", &ctx, format!("after cancelling {:?}: PUBRELs [{}], uncancelled run [{}]", ops, hexes(&r.obs.pubrels), hexes(&t.obs.pubrels)));
+            }
+            if r.obs.delivered != t.obs.delivered {
+                flag("C13", "deliveries-differ", &ctx, format!("after cancelling {:?}: delivered {:?}, uncancelled run {:?}", ops, r.obs.delivered, t.obs.delivered));
+            }
+        }
+        Twin::Fragment => {
+            let ctx = dev_kinds.iter().cloned().collect::<Vec<_>>().join("+");
+            if r.obs.delivered != t.obs.delivered {
+                flag("C15", "deliveries-differ", &ctx, format!("delivered {:?}, unfragmented run {:?}", r.obs.delivered, t.obs.delivered));
+            }
+            if r.results != t.results {
+                flag("C15", "results-differ", &ctx, format!("operation results {:?}, unfragmented run {:?}", r.results, t.results));
+            }
+            if r.tx != t.tx {
+                let a: Vec<String> = r.tx.iter().map(|b| mr::hex(b)).collect();
+                let b: Vec<String> = t.tx.iter().map(|b| mr::hex(b)).collect();
+                flag("C15", "outbound-stream-differs", &ctx, format!("bytes accepted per connection {:?}, unfragmented run {:?}", a, b));
+            }
+        }
+    }
+}
+
+pub fn run_inner(
+    cfg: &Rc<Cfg>,
+    prefix: &[u8],
+    expect: &[(u8, u8)],
+    visit: Option<VisitFn<'_>>,
+    record: bool,
+    script: Option<Vec<PStep>>,
+) -> RunResult {
     clock::reset();
     let oracle = Oracle::new(cfg.props.clone(), cfg.client_id, cfg.rx);
     let sh = Rc::new(RefCell::new(Shared {
@@ -1712,9 +1944,18 @@ pub fn run_once(
         progress: 0,
         env_steps: 0,
         manual: false,
-        keep_tx: false,
+        keep_tx: cfg.twin.is_some() || script.is_some(),
+        last_cancel_forced: false,
     }));
+    if script.is_some() {
+        sh.borrow_mut().ch.frozen = true;
+    }
     let mut world = World {
+        program: Vec::new(),
+        script: script.map(|v| v.into()),
+        cur_args: VecDeque::new(),
+        cancelled: Vec::new(),
+        results: Vec::new(),
         sh: sh.clone(),
         cfg: cfg.clone(),
         handles: Vec::new(),
@@ -1772,6 +2013,12 @@ pub fn run_once(
                     outcome_sig: 0,
                     spent: 0,
                     io_calls: 0,
+                    obs: Default::default(),
+                    results: Vec::new(),
+                    tx: Vec::new(),
+                    program: Vec::new(),
+                    cancelled: Vec::new(),
+                    cancelled_without_trace: Vec::new(),
                 };
             }
         };
@@ -1807,7 +2054,25 @@ pub fn run_once(
         }
     }
     let mut shb = sh.borrow_mut();
+    let cancelled_without_trace: Vec<bool> = world
+        .cancelled
+        .iter()
+        .map(|(_, _, seq)| match seq {
+            Some(seq) => {
+                let rq = &shb.oracle.reqs[*seq as usize];
+                !rq.enq && !rq.offered
+            }
+            None => false,
+        })
+        .collect();
+    let tx: Vec<Vec<u8>> = shb.conns.iter().map(|c| c.tx_log.clone()).collect();
     RunResult {
+        obs: std::mem::take(&mut shb.oracle.obs),
+        results: std::mem::take(&mut world.results),
+        tx,
+        program: std::mem::take(&mut world.program),
+        cancelled: std::mem::take(&mut world.cancelled),
+        cancelled_without_trace,
         points: std::mem::take(&mut shb.ch.points),
         violations: std::mem::take(&mut shb.oracle.viol),
         trace: shb.trace.take(),
